@@ -41,6 +41,19 @@ func parseJob(job string) (WorldDesc, Config, string) {
 
 // casesFor enumerates the operation set of a job.
 func casesFor(f *Fed, opset string) []Case {
+	// "<opset>#s/n" keeps every n-th case starting at s (splits a big job for parallelism)
+	if i := strings.Index(opset, "#"); i > 0 {
+		var s, n int
+		fmt.Sscanf(opset[i+1:], "%d/%d", &s, &n)
+		all := casesFor(f, opset[:i])
+		var out []Case
+		for k, c := range all {
+			if n > 0 && k%n == s {
+				out = append(out, c)
+			}
+		}
+		return out
+	}
 	switch {
 	case strings.HasPrefix(opset, "plainK"):
 		k, _ := strconv.Atoi(opset[6:])
